@@ -30,6 +30,8 @@ Attribute values are always escaped leaves (`with_attribute((k, v))` escapes `v`
                (pinned: written literally, so a conforming parser normalises them away, defect D17)
   guard      : `to_xml` refuses a body that contains the end-of-message marker
                (pinned: no check, so a caller-supplied fragment can inject a delimiter, defect D18)
+  charGuard  : `to_xml` refuses a message containing a character outside the `Char` production of
+               XML 1.0 (pinned: sent as it is — a document no conforming parser accepts, defect D19)
 -/
 namespace Writers
 open Framing (marker find)
@@ -46,10 +48,11 @@ structure Cfg where
   payloadEsc : Bool
   wsRefs : Bool
   guard : Bool
+  charGuard : Bool
   deriving Repr, DecidableEq
 
-def Cfg.pinned : Cfg := { payloadEsc := false, wsRefs := false, guard := false }
-def Cfg.fixed : Cfg := { payloadEsc := true, wsRefs := true, guard := true }
+def Cfg.pinned : Cfg := { payloadEsc := false, wsRefs := false, guard := false, charGuard := false }
+def Cfg.fixed : Cfg := { payloadEsc := true, wsRefs := true, guard := true, charGuard := true }
 
 /-! ### quick-xml `escape` -/
 
@@ -180,9 +183,23 @@ end
 /-- message/mod.rs:38-44 `to_xml`: body, then MARKER once -/
 def toWire (ws : Bool) (m : XNode) : List Nat := render ws m ++ marker
 
-/-- `to_xml` as a partial function: the repaired variant refuses a body containing the marker -/
+/-- XML 1.0 §2.2 `Char` on UTF-8 bytes: no C0 control other than TAB, LF, CR … -/
+def c0Ok (b : Nat) : Bool := b == 9 || b == 10 || b == 13 || 32 ≤ b
+
+/-- … and neither U+FFFE nor U+FFFF (`EF BF BE`, `EF BF BF`; in well-formed UTF-8 these three
+bytes in a row can only be that character). Surrogates cannot occur in a Rust `String`. -/
+def charsOk : List Nat → Bool
+  | [] => true
+  | 239 :: 191 :: 190 :: _ => false
+  | 239 :: 191 :: 191 :: _ => false
+  | b :: rest => c0Ok b && charsOk rest
+
+/-- `to_xml` as a partial function: the repaired variant refuses a body containing the marker,
+and a message containing a character that XML 1.0 cannot represent -/
 def send (c : Cfg) (m : XNode) : Option (List Nat) :=
-  if c.guard && (find marker (render c.wsRefs m)).isSome then none else some (toWire c.wsRefs m)
+  if c.guard && (find marker (render c.wsRefs m)).isSome then none
+  else if c.charGuard && !charsOk (toWire c.wsRefs m) then none
+  else some (toWire c.wsRefs m)
 
 /-! ### leaves of a tree (for the statements) -/
 
